@@ -33,7 +33,9 @@ Section Trace.
   | TGet (name : string) (mask : option rmask) (resp : option M + Z)
   | TUpdate (name : string) (resp : M + Z)             (* inr (-1): the handler panicked *)
   | TOpen (name : string) (mask : option rmask) (updates_only : bool)
-  | TCancel (i : nat).
+  | TCancel (i : nat)
+  | TStall (i : nat).    (* from here on the reader of stream i does not receive: the property's "whose reader
+                            keeps up" ends for that stream; the call stays open until cancelled *)
 
   (* a stream as observed when the history is over: the changes received, as (name, value), and how
      it ended if it did (5 = NotFound, 1 = cancelled by the client) *)
@@ -106,13 +108,22 @@ Section Trace.
     | _ :: r => find_open i cur r
     end.
 
-  (* projected responses of the successful Updates that follow, until the stream's cancel *)
+  Fixpoint cancelled_later (i : nat) (evs : list tev) : bool :=
+    match evs with
+    | [] => false
+    | TCancel j :: r => Nat.eqb j i || cancelled_later i r
+    | _ :: r => cancelled_later i r
+    end.
+
+  (* projected responses of the successful Updates that follow, until the stream's cancel or until its
+     reader stalls (what is published after that is not owed to it; the cancel is still looked for) *)
   Fixpoint since (i : nat) (k : option rmask) (evs : list tev) : list M * bool :=
     match evs with
     | [] => ([], false)
     | TUpdate name (inl v) :: r =>
         if t_routed name then let '(l, c) := since i k r in (pm k v :: l, c) else since i k r
     | TCancel j :: r => if Nat.eqb j i then ([], true) else since i k r
+    | TStall j :: r => if Nat.eqb j i then ([], cancelled_later i r) else since i k r
     | _ :: r => since i k r
     end.
 
@@ -164,3 +175,4 @@ Arguments TGet {M rmask}.
 Arguments TUpdate {M rmask}.
 Arguments TOpen {M rmask}.
 Arguments TCancel {M rmask}.
+Arguments TStall {M rmask}.
